@@ -15,12 +15,22 @@ PROP = {'lean_props': ['Comrak.Props.C15'],
                        'ref_ids_distinct_counterexample',
                        'unreferenced_omitted_counterexample',
                        'defs_rendered_once_counterexample',
-                       'refs_point_to_rendered_def_after_fix'],
+                       'refs_point_to_rendered_def_after_fix',
+                       'refs_point_to_rendered_def_partial',
+                       'defs_rendered_once_partial',
+                       'ref_nums_1_to_total_partial',
+                       'unreferenced_omitted_partial',
+                       'noRefInDropped_needed_for_ref_nums',
+                       'noNestedDefs_needed'],
  'strength': 'anchors: full (every normalisation table, every issued set, every list of heading texts). Footnotes: numbering in '
-             'first-reference order proved for every tree and label normaliser; the remaining clauses (references point to a definition '
-             'rendered once, back-links match references, ref_nums 1..total, unreferenced omitted) are NOT proved in general: the real pass '
-             'violates each of them on a listed input class (Lean counterexample theorems + known findings), and outside those classes they '
-             'are checked by the oracles on the real output only (search, not proof)',
+             'first-reference order proved for every tree and label normaliser; "references point to a rendered definition" proved for every '
+             'tree with leaf references (refs_point_to_rendered_def_partial: no other hypothesis, in particular no idempotence of the '
+             'normaliser); "rendered once", "ref_nums 1..total" and "unreferenced omitted" proved for every tree and normaliser under explicit '
+             'decidable hypotheses that exclude exactly the listed defect classes (noNestedDefs; noRefInDropped = no resolvable reference inside '
+             'a definition that is dropped; labelsCompat = keep-equal labels are fold-equal, a condition on the normaliser parameter), each '
+             'hypothesis shown necessary by a Lean counterexample; inside the defect classes the real pass violates the clauses (known findings). '
+             'The HTML-level clause "back-links match references" and id uniqueness (X / X-2 names, %XX names) are not proved in general '
+             '(counterexamples + output oracles)',
  'trusted_base': HTML_TB + ['label normalisation (strings::normalize_label, Unicode case folding) is a parameter of processFootnotes; the harness '
                             'supplies (label, fold, keep) per label from its own ASCII + char::to_lowercase rules and the node-for-node comparison '
                             'of the model with the real pass fails if they differ',
@@ -36,15 +46,21 @@ TEXT = {'text': 'Proof + correspondence. Anchors: Lean proves for anchorLoop/anc
          'heading texts under any normalisation table are pairwise distinct. Footnotes: processFootnotes (Comrak/Footnotes.lean) models the '
          "parser's pass (definition map keyed by folded label with last-one-wins, numbering walk over the whole tree including definitions, "
          'removal of outermost definitions, re-attachment in ix order with rewritten names and counts) with the label normaliser as a parameter; '
-         'Lean proves that ix values are issued 1,2,3,.. in order of first reference for every tree, and refutes by decide-witnesses on the model '
+         'Lean proves that ix values are issued 1,2,3,.. in order of first reference for every tree; by factoring the walk through the list of '
+         'resolvable keys (run/emit over that list) and showing that strip + re-attach only permutes the references, it proves for every tree and '
+         'normaliser that every reference carries the number and name of a rendered definition (leaf references only), and - under the decidable '
+         'hypotheses noNestedDefs / noRefInDropped / labelsCompat - that no name is rendered twice, that the references to each rendered '
+         'definition carry ref_num 1..total_references, and that every rendered definition is referenced and no other definition is rendered; each '
+         'hypothesis is shown necessary by a counterexample theorem. It refutes by decide-witnesses on the model '
          'the clauses the pass really violates (reference inside a dropped definition, X / X-2 names, definition nested in a definition, '
          'non-idempotent label normalisation), each re-established on the real code and listed in known_findings.json. Tie to the code on every '
          'run: real Anchorizer = anchorizeAll on all sequences of length <= 3 over 9 colliding texts and on random longer ones; the real '
          'tree after process_footnotes = processFootnotes(real tree before it), node for node, on generated footnote documents (hook observer); '
          'whole documents byte-equal to the renderer model with header_ids and footnotes on. Search: the id/href graph of the real HTML (Lean '
          'lexHtml) is checked against every clause of the property.',
- 'note': 'Trusted: Lean kernel + standard axioms; harness/driver; hook observer; label-normaliser parameter. The general footnote clauses other '
-         'than numbering order rest on the node-for-node model correspondence plus output oracles, not on a general theorem.',
- 'technique': 'Lean 4 theorems (pigeonhole over injective decimal suffixes; mutual induction over the numbering walk; decide witnesses) + '
+ 'note': 'Trusted: Lean kernel + standard axioms; harness/driver; hook observer; label-normaliser parameter. The tree-level footnote clauses are general '
+         'theorems about the model outside the listed defect classes; the HTML-level back-link/id clauses rest on the node-for-node model '
+         'correspondence plus output oracles, not on a general theorem.',
+ 'technique': 'Lean 4 theorems (pigeonhole over injective decimal suffixes; mutual induction over the numbering walk, run/emit factorisation over the resolvable keys, permutation argument for strip + re-attach; decide witnesses) + '
               'differential correspondence of the pass through a cfg(comrak_verif) observer + id/href graph oracles on the real HTML',
  'design_ref': 'DESIGN.md section 7, C15'}
